@@ -804,6 +804,38 @@ def run(ck):
                 ck.violation('other-peer-not-served:after-ike-auth-with-an-unusual-identity', {'idtype': idtype, 'identity': name[:100]}, sim.case)
             else:
                 ck.count('unusual_identity.other_peer_served')
+    # ---- the same kind of text in the Vendor ID of an (otherwise acceptable) IKE_SA_INIT request and in the data of a status notification: rendered for the
+    # log before anything is authenticated. Product strings as real implementations send them, and near misses of "words separated by punctuation"
+    vendor_texts = names + ['Acme Secure Gateway IKEv2 daemon release 12.4.1 (build 20240917)', 'strongSwan 5.9.11 (Linux 6.1.0-18-amd64, x86_64)', 'Cisco-Unity' * 6 + '!',
+                            'word ' * 12 + ' double  blank', 'v1.2.3-rc1+build.5.' * 4 + '~', 'MS NT5 ISAKMPOAKLEY' + chr(9), 'a_b-c.d,e:f/g+h i' * 4 + '(']
+    for vi_, text in enumerate(vendor_texts):
+        for where in ('vendor-id', 'notify-data'):
+            n += 1
+            if not ck.mine(n):
+                continue
+            sim, hub, (p1, p2) = S.make_star(base + 89, peers=2)
+            sim.case = {'unusual_text_in': where, 'text': text[:80], 'length': len(text)}
+            died = []
+            sim.monitors.append(lambda s_, ep, rec: died.append(rec) if (rec.died and ep is hub) else None)
+            pr = party_.RefParty(P1A, HUB, rng_id)
+            trs = [{'type': 1, 'id': 12, 'keylen': 256}, {'type': 3, 'id': 12, 'keylen': None}, {'type': 2, 'id': 5, 'keylen': None}, {'type': 4, 'id': 19, 'keylen': None}]
+            m_ = codec.decode(pr.init_request(trs, 19), strict_bodies=False)
+            pls_ = [{k_: v_ for k_, v_ in p_.items() if k_ not in ('next', 'reserved', 'body')} for p_ in m_['payloads']]
+            data_ = text.encode()[:3000]
+            pls_.append({'type': 43, 'critical': False, 'data': data_} if where == 'vendor-id' else {'type': 41, 'critical': False, 'proto': 0, 'spi': b'', 'ntype': 40960, 'data': data_})
+            sim.inject(hub, P1A, HUB, codec.encode_clear(dict(m_, payloads=pls_)))
+            sim.net.clear()
+            ck.count('unusual_text.runs')
+            ck.nontrivial(('unusual-text', where, vi_))
+            if died:
+                ck.violation(f'loop-terminated-or-spinning:{type(died[0].exc).__name__}:ike-sa-init-request-with-unusual-text-in-{where}', {'exc': repr(died[0].exc)[:200], 'text': text[:100]}, sim.case)
+                continue
+            sim.acquire(p2, 0, sport=6970)
+            sim.drain()
+            if not any(x.state == State.ESTABLISHED and x.child_sas and str(x.peer_addr) == P2A for x in hub.ctl.ike_sas):
+                ck.violation(f'other-peer-not-served:after-ike-sa-init-request-with-unusual-text-in-{where}', {'text': text[:100]}, sim.case)
+            else:
+                ck.count('unusual_text.other_peer_served')
     mon.stop()
 
 
@@ -828,5 +860,6 @@ def verdict(ck):
     ck.floor('IKE_AUTH requests with unusual identities after which the other peer was served', c['unusual_identity.other_peer_served'], 80)
     ck.floor('histories cut at a delivery after which the other peer was still probed on time', c['vanish.other_peer_probed_on_time'], 80)
     ck.floor('states in which the vanished peer left its IKE_SAs at the hub', len(ck.sets['vanish.states_of_the_vanished_peers_ike_sas']), 5)
+    ck.floor('IKE_SA_INIT requests with unusual text in a Vendor ID / notification after which the other peer was served', c['unusual_text.other_peer_served'], 40)
     ck.floor('phases', len(ck.sets['phases']), 5)
     return None
